@@ -71,7 +71,7 @@ func checkC15(c *FileCase) *Violation {
 	kinds := map[string]bool{}
 	nonDefault := false
 	for _, opt := range []bool{false, true} {
-		res := Compile(src, c.opts(opt))
+		res := CompileMaybeLM(src, c.opts(opt))
 		if res.Panic != nil || res.Budget {
 			return viol("crash", "%s\n--- source\n%s", res.Describe(), src)
 		}
